@@ -19,13 +19,15 @@ structure InvBorn (c : Conn α) : Prop where
   ex : ∀ sid x, c.born sid = some x → ∃ e, c.exs[x]? = some e ∧ e.stream = sid ∧ e.live ∧ e.from = 0
   hist : ∀ sid, sid ≠ 0 → (c.hist sid).isSome → (c.born sid).isSome
   inj : ∀ sid sid' x, c.born sid = some x → c.born sid' = some x → sid = sid'
+  bh : ∀ sid x, c.born sid = some x → (c.hist sid).isSome
 
 theorem invBorn_init (cfg : Cfg) : InvBorn (init cfg : Conn α) := by
-  refine ⟨by simp [init], ?_, ?_, ?_, ?_⟩
+  refine ⟨by simp [init], ?_, ?_, ?_, ?_, ?_⟩
   · intro sid x h; simp [init] at h
   · intro sid x h; simp [init] at h
   · intro sid hne hs; simp [init, hne] at hs
   · intro sid sid' x h; simp [init] at h
+  · intro sid x h; simp [init] at h
 
 /-- the ghost history only grows -/
 structure Ext (c c' : Conn α) : Prop where
@@ -217,12 +219,13 @@ theorem invBorn_step_other {c : Conn α} (hw : Inv c) (hb : InvBorn c) (l : Labe
   have hg := grow_step hw l
   have hexOld := invBorn_old_ex hw hb l
   obtain ⟨e1, e2⟩ := step_ghost_other c l hp
-  refine ⟨Nat.lt_of_lt_of_le hb.npos hg.nextSid, ?_, ?_, ?_, ?_⟩
+  refine ⟨Nat.lt_of_lt_of_le hb.npos hg.nextSid, ?_, ?_, ?_, ?_, ?_⟩
   · intro sid x hx; rw [e1] at hx
     exact ⟨Nat.lt_of_lt_of_le (hb.lt sid x hx).1 hg.nextSid, (hb.lt sid x hx).2⟩
   · intro sid x hx; rw [e1] at hx; exact hexOld sid x hx
   · intro sid hne hs; rw [e2] at hs; rw [e1]; exact hb.hist sid hne hs
   · intro sid sid' x h1 h2; rw [e1] at h1 h2; exact hb.inj sid sid' x h1 h2
+  · intro sid x hx; rw [e1] at hx; rw [e2]; exact hb.bh sid x hx
 
 theorem invBorn_post {c : Conn α} (hw : Inv c) (hb : InvBorn c) (calls : List Nat) (listen : Bool) (ver : Ver) (b : Option Nat) :
     InvBorn (post c calls listen ver b) := by
@@ -230,19 +233,20 @@ theorem invBorn_post {c : Conn α} (hw : Inv c) (hb : InvBorn c) (calls : List N
   have hexOld := invBorn_old_ex hw hb (.post calls listen ver b)
   have hgn : c.nextSid ≤ (post c calls listen ver b).nextSid := hg.nextSid
   rcases post_ghost c calls listen ver b with ⟨e1, e2, _, _, _⟩ | ⟨e1, e2, e3, enew⟩
-  · refine ⟨Nat.lt_of_lt_of_le hb.npos hgn, ?_, ?_, ?_, ?_⟩
+  · refine ⟨Nat.lt_of_lt_of_le hb.npos hgn, ?_, ?_, ?_, ?_, ?_⟩
     · intro sid x hx; rw [e1] at hx
       exact ⟨Nat.lt_of_lt_of_le (hb.lt sid x hx).1 hgn, (hb.lt sid x hx).2⟩
     · intro sid x hx; rw [e1] at hx; exact hexOld sid x hx
     · intro sid hne hs; rw [e2] at hs; rw [e1]; exact hb.hist sid hne hs
     · intro sid sid' x h1 h2; rw [e1] at h1 h2; exact hb.inj sid sid' x h1 h2
+    · intro sid x hx; rw [e1] at hx; rw [e2]; exact hb.bh sid x hx
   · have hxlt : ∀ sid x, c.born sid = some x → x < c.exs.length := by
       intro sid x hx
       obtain ⟨e, he, _⟩ := hb.ex sid x hx
       by_cases hh : x < c.exs.length
       · exact hh
       · rw [List.getElem?_eq_none (by omega)] at he; cases he
-    refine ⟨by rw [e3]; omega, ?_, ?_, ?_, ?_⟩
+    refine ⟨by rw [e3]; omega, ?_, ?_, ?_, ?_, ?_⟩
     · intro sid x hx; rw [e1] at hx; rw [e3]
       simp only at hx
       split at hx
@@ -265,6 +269,11 @@ theorem invBorn_post {c : Conn α} (hw : Inv c) (hb : InvBorn c) (calls : List N
       · cases h1; have := hxlt _ _ h2; omega
       · cases h2; have := hxlt _ _ h1; omega
       · exact hb.inj sid sid' x h1 h2
+    · intro sid x hx; rw [e1] at hx; rw [e2]
+      simp only at hx ⊢
+      split
+      · rfl
+      · rename_i hk; simp only [hk, if_false] at hx; exact hb.bh sid x hx
 
 theorem invBorn_step {c : Conn α} (hw : Inv c) (hb : InvBorn c) (l : Label α) : InvBorn (step c l) := by
   cases l with
